@@ -387,7 +387,7 @@ pub fn run(cfg: &RunCfg) -> Report {
         json!("the grid (i) and the boundary product (ii) are enumerated completely on every run; (iii) is sampled"),
     );
     if !rep.failed() {
-        let n = cfg.cases(200_000, 20_000_000);
+        let n = cfg.cases(2_000_000, 100_000_000);
         rep.absorb(
             "c05_point",
             explore(cfg, "c05-random", n, random_point, |p: &Point, st| {
